@@ -108,7 +108,7 @@ func c15r1(p *Prog, r *Reporter) {
 			if chain[fn] && fn != reset || fn == reset {
 				continue
 			}
-			if isConstructorName(fn.Name()) && fn.Signature.Recv() == nil {
+			if isConstructorName(cname(fn)) && fn.Signature.Recv() == nil {
 				continue
 			}
 			// only functions that work on a T they did not create: methods of T, or functions with a *T / *World parameter
@@ -123,7 +123,7 @@ func c15r1(p *Prog, r *Reporter) {
 			}
 		}
 		for i := 0; i < stt.NumFields(); i++ {
-			f := stt.Field(i).Name()
+			f := fieldName(n, i)
 			key := st.name + "." + f
 			writer, isRun := run[f]
 			if !isRun {
@@ -234,7 +234,7 @@ func c15r5(p *Prog, r *Reporter) {
 	sort.Slice(fns, func(i, j int) bool { return p.FuncName(fns[i]) < p.FuncName(fns[j]) })
 	for _, fn := range fns {
 		// only resetters proper: functions named Reset/reset
-		if !strings.EqualFold(fn.Name(), "reset") {
+		if !strings.EqualFold(cname(fn), "reset") {
 			continue
 		}
 		for _, b := range fn.Blocks {
